@@ -362,6 +362,9 @@ func Expiry() Spec {
 		Buy(D, "B0-all", BuySpec{Seller: B, K: 0, DAR: true, MaxFee: I64(100)}),
 		CancelOrder(B, B, 1),
 		CancelOrder(C, C, 0),
+		// a balance at the edge of 34 significant digits, then its smallest unit on sale until T0+10s
+		MintFresh(A, B1, D, Big, "0"),
+		fix(Sell(D, B1, Eps, ur(3), true, &e10)),
 		// what a seller does in the OTHER modules while orders are open must not make a later expiry fail
 		fix(Send(B, D, B1, "0.5", "0.25")), // retire-on-send
 		fix(Retire(B, B1, "0.5")),
